@@ -57,6 +57,8 @@ pub fn cancel_strategy() -> BoxedStrategy<CancelCase> {
         2 => pred_strategy().prop_map(Op::ForceUpdate),
         // queries: they change nothing, but they walk blobs whose index may have to be read (or loaded) meanwhile
         3 => (0u8..3, 0u8..5).prop_map(|(key, kind)| Op::Probe { key, kind }),
+        // off-loading walks every closed blob with the list locked for writing
+        2 => (0u8..3, 0u8..5).prop_map(|(level, need)| Op::Offload { level, need }),
     ];
     let cfg = (cfg_strategy(&[8, 33], true), prop::bool::weighted(0.6)).prop_map(|(mut c, current_thread)| {
         c.allow_dup = true;
@@ -192,6 +194,11 @@ pub fn run_cancel(c: &CancelCase, dir: &Path, findings: &Findings) -> Result<Cas
             Op::Probe { key, kind } => {
                 let kb = key_bytes(keylen, *key);
                 let (r, u) = poll_kb(crate::interp::run_probe(s, &kb, *kind), k, c.budget).await;
+                (r.map(|_| true), u)
+            }
+            Op::Offload { level, need } => {
+                let sm = ex.sut.as_mut().expect("open");
+                let (r, u) = poll_kb(sm.offload(offload_needed(*need), *level as usize), k, c.budget).await;
                 (r.map(|_| true), u)
             }
             _ => {
@@ -444,6 +451,7 @@ fn enum_cases(kmax: usize, thorough: bool, budgets: &[Option<u8>]) -> Vec<Cancel
         Op::Probe { key: 0, kind: 0 },
         Op::Probe { key: 1, kind: 1 },
         Op::Probe { key: 0, kind: 3 },
+        Op::Offload { level: 0, need: 0 },
     ];
     for (vi, victim) in victims.iter().enumerate() {
         for rt_workers in [0usize, 2] {
@@ -470,11 +478,11 @@ fn enum_cases(kmax: usize, thorough: bool, budgets: &[Option<u8>]) -> Vec<Cancel
                         Op::CreateActive | Op::Restore => prefix.push(Op::CloseActive),
                         // a marker appended to a closed blob loads its index back into memory (re-dump deferred for a minute):
                         // the victim then meets a closed blob whose index has to be dumped
-                        Op::Free => prefix.push(Op::Delete { key: 1, ts: 3, meta: 0, only_if: true }),
+                        Op::Free | Op::Offload { .. } => prefix.push(Op::Delete { key: 1, ts: 3, meta: 0, only_if: true }),
                         _ => {}
                     }
                     let suffix = vec![Op::Write { key: 2, ts: 1, meta: 0, vlen: 35, fill: 0 }, Op::Delete { key: 1, ts: 2, meta: 0, only_if: true }, Op::Write { key: 0, ts: 4, meta: 0, vlen: 36, fill: 0 }];
-                    out.push(CancelCase { cfg: Cfg { keylen: 8, rt_workers, allow_dup: true, defer_ms: if matches!(victim, Op::Free) { (60_000, 180_000) } else { (2, 5) }, ..Cfg::default() }, prefix, victim: victim.clone(), k: k as u16, suffix, final_lazy: false, final_remove_idx: (k + vi) % 2 == 0, budget: *budget });
+                    out.push(CancelCase { cfg: Cfg { keylen: 8, rt_workers, allow_dup: true, defer_ms: if matches!(victim, Op::Free | Op::Offload { .. }) { (60_000, 180_000) } else { (2, 5) }, ..Cfg::default() }, prefix, victim: victim.clone(), k: k as u16, suffix, final_lazy: false, final_remove_idx: (k + vi) % 2 == 0, budget: *budget });
                   }
                 }
             }
